@@ -156,3 +156,273 @@ Section Est2.
       intro Hwf. apply R7, S5, Hwf.
   Qed.
 End Est2.
+
+(* ---- no overwriting, on-disk results: closed forms ---- *)
+Section Est3.
+  Variable fitf : Z -> list row -> Z.
+  Variable predf : Z -> Z -> Z -> Z.
+  Notation expect := (expect fitf predf).
+  Notation exec_ops := (exec_ops fitf predf).
+  Notation run_tasks := (run_tasks fitf predf).
+  Notation run := (run fitf predf).
+  Notation puts := (puts fitf predf).
+
+  (* what a completed pass over one task / a list of tasks leaves in the store *)
+  Definition complete_task (fl : flags) (t : task) (fs : files) : files := puts (missing fl t fs) fs.
+  Fixpoint complete_all (fl : flags) (l : list task) (fs : files) : files :=
+    match l with [] => fs | t :: r => complete_all fl r (complete_task fl t fs) end.
+  (* ... the entries it writes, and the tasks it has to fit *)
+  Fixpoint all_missing (fl : flags) (l : list task) (fs : files) : list (task * item) :=
+    match l with
+    | [] => []
+    | t :: r => missing fl t fs ++ all_missing fl r (complete_task fl t fs)
+    end.
+  Fixpoint need_fit (fl : flags) (l : list task) (fs : files) : list task :=
+    match l with
+    | [] => []
+    | t :: r => match missing fl t fs with [] => [] | _ => [t] end
+                ++ need_fit fl r (complete_task fl t fs)
+    end.
+  Definition not_fit (x : task * item) : bool := negb (item_eqb (snd x) IFit).
+
+  Lemma run_tasks_noow_running fl fail : noow fl -> forall l c c' ev,
+    run_tasks true fl fail l c = (c', ev, Running) ->
+    cfiles c' = complete_all fl l (cfiles c) /\
+    writes_of ev = map ikey (all_missing fl l (cfiles c)) /\
+    fits_of ev = need_fit fl l (cfiles c) /\
+    preds_of ev = filter not_fit (all_missing fl l (cfiles c)).
+  Proof.
+    intro Hno. induction l as [|t r IH]; intros c c' ev H; cbn [Model.run_tasks] in H.
+    - inversion H; subst. cbn. auto.
+    - destruct (exec_ops true fail (plan_task true fl (cstore c) t) c) as [[c1 e1] s1] eqn:E1.
+      destruct (exec_ops_form fitf predf _ _ _ _ _ _ _ E1)
+        as [dn [rest [Hops [Hfs [Hw [Hm [Hrun [Hstop [Hrun2 Hram]]]]]]]]].
+      destruct s1; try (inversion H; fail).
+      destruct (run_tasks true fl fail r c1) as [[c2 e2] s2] eqn:E2. inversion H; subst; clear H.
+      rewrite (Hrun eq_refl), app_nil_r in Hops. subst dn.
+      destruct (Hrun2 eq_refl) as [Hf Hp].
+      rewrite (plan_items_noow fl (cstore c) t Hno) in Hfs, Hw.
+      rewrite (plan_fits_noow fl (cstore c) t Hno) in Hf.
+      rewrite (plan_preds_noow fl (cstore c) t Hno) in Hp.
+      destruct (IH _ _ _ E2) as [I1 [I2 [I3 I4]]].
+      change (sfiles (cstore c)) with (cfiles c) in *.
+      cbn [complete_all all_missing need_fit]. unfold complete_task at 1 2 3 4. rewrite <- Hfs.
+      split; [exact I1|].
+      split; [rewrite writes_of_app, map_app, Hw, I2; reflexivity|].
+      split; [rewrite fits_of_app, Hf, I3; reflexivity|].
+      rewrite preds_of_app, filter_app, Hp, I4. reflexivity.
+  Qed.
+
+  (* a crashed run: the tasks before the crashing one are complete, of the crashing task a prefix
+     of its missing entries has been written *)
+  Lemma run_tasks_noow_crash fl fail : noow fl -> forall l c c' ev s,
+    run_tasks true fl fail l c = (c', ev, s) -> s <> Running ->
+    exists pre t post m1 m2,
+      l = pre ++ t :: post /\
+      missing fl t (complete_all fl pre (cfiles c)) = m1 ++ m2 /\
+      cfiles c' = puts m1 (complete_all fl pre (cfiles c)) /\
+      writes_of ev = map ikey (all_missing fl pre (cfiles c) ++ m1).
+  Proof.
+    intro Hno. induction l as [|t r IH]; intros c c' ev s H Hs; cbn [Model.run_tasks] in H.
+    - inversion H; subst. congruence.
+    - destruct (exec_ops true fail (plan_task true fl (cstore c) t) c) as [[c1 e1] s1] eqn:E1.
+      destruct (exec_ops_form fitf predf _ _ _ _ _ _ _ E1)
+        as [dn [rest [Hops [Hfs [Hw [Hm [Hrun [Hstop [Hrun2 Hram]]]]]]]]].
+      assert (Hstopped : s1 <> Running -> (c', ev, s) = (c1, e1, s1) ->
+              exists pre t0 post m1 m2, t :: r = pre ++ t0 :: post /\
+                missing fl t0 (complete_all fl pre (cfiles c)) = m1 ++ m2 /\
+                cfiles c' = puts m1 (complete_all fl pre (cfiles c)) /\
+                writes_of ev = map ikey (all_missing fl pre (cfiles c) ++ m1)).
+      { intros Hne E0. inversion E0; subst c' ev s.
+        exists [], t, r, (op_items dn), (op_items rest). cbn [app complete_all all_missing].
+        split; [reflexivity|].
+        split. { rewrite <- op_items_app, <- Hops. symmetry. apply (plan_items_noow fl (cstore c) t Hno). }
+        split; [exact Hfs|exact Hw]. }
+      destruct s1; try (apply Hstopped; [discriminate|congruence]).
+      destruct (run_tasks true fl fail r c1) as [[c2 e2] s2] eqn:E2. inversion H; subst; clear H.
+      rewrite (Hrun eq_refl), app_nil_r in Hops. subst dn.
+      rewrite (plan_items_noow fl (cstore c) t Hno) in Hfs, Hw.
+      change (sfiles (cstore c)) with (cfiles c) in *.
+      destruct (IH _ _ _ _ E2 Hs) as [pre [t0 [post [m1 [m2 [A [B [C D]]]]]]]].
+      exists (t :: pre), t0, post, m1, m2. cbn [app complete_all all_missing].
+      unfold complete_task. rewrite <- Hfs.
+      split; [rewrite A; reflexivity|]. split; [exact B|]. split; [exact C|].
+      rewrite writes_of_app, Hw, D, <- map_app, app_assoc. reflexivity.
+  Qed.
+End Est3.
+
+(* ---- algebra of completion ---- *)
+Lemma filter_all_false {A} (f : A -> bool) l : (forall x, In x l -> f x = false) -> filter f l = [].
+Proof.
+  induction l as [|a t IH]; cbn; intro H; [reflexivity|]. rewrite (H a (or_introl eq_refl)).
+  apply IH. intros x Hx. apply H. right. exact Hx.
+Qed.
+Lemma filter_all_true {A} (f : A -> bool) l : (forall x, In x l -> f x = true) -> filter f l = l.
+Proof.
+  induction l as [|a t IH]; cbn; intro H; [reflexivity|]. rewrite (H a (or_introl eq_refl)).
+  f_equal. apply IH. intros x Hx. apply H. right. exact Hx.
+Qed.
+Lemma filter_andb {A} (f g : A -> bool) l : filter (fun x => f x && g x) l = filter g (filter f l).
+Proof.
+  induction l as [|a t IH]; cbn; [reflexivity|]. destruct (f a); cbn; [destruct (g a)|]; rewrite IH; reflexivity.
+Qed.
+Lemma existsb_item_in it a : existsb (item_eqb it) a = true <-> In it a.
+Proof.
+  rewrite existsb_exists. split.
+  - intros [x [Hx E]]. apply item_eqb_spec in E. subst. exact Hx.
+  - intro H. exists it. split; [exact H|]. apply item_eqb_spec. reflexivity.
+Qed.
+Lemma filter_notin_app (a b : list item) :
+  NoDup (a ++ b) -> filter (fun x => negb (existsb (item_eqb x) a)) (a ++ b) = b.
+Proof.
+  intro Hnd. rewrite filter_app. rewrite filter_all_false, filter_all_true; [reflexivity| |].
+  - intros x Hx. destruct (existsb (item_eqb x) a) eqn:E; [|reflexivity].
+    apply existsb_item_in in E. exfalso. revert Hnd x Hx E. clear.
+    induction a as [|y a IH]; cbn; intros Hnd x Hx E; [destruct E|].
+    inversion Hnd as [|? ? Hn Hr]; subst. destruct E as [->|E].
+    + apply Hn. apply in_or_app. right. exact Hx.
+    + exact (IH Hr x Hx E).
+  - intros x Hx. apply existsb_item_in in Hx. rewrite Hx. reflexivity.
+Qed.
+Lemma nodup_filter_items (f : item -> bool) : NoDup (filter f items3).
+Proof.
+  unfold items3. cbn. destruct (f IFit), (f ITrain), (f ITest);
+    repeat (constructor; [cbn; intuition discriminate|]); constructor.
+Qed.
+
+Definition cmiss (fl : flags) (t : task) (fs : files) (it : item) : bool :=
+  requested fl it && negb (fhas (tkey t it) fs).
+Lemma missing_filter fl t fs : missing fl t fs = map (pair t) (filter (cmiss fl t fs) items3).
+Proof.
+  unfold missing, cmiss. cbn [items3 flat_map filter].
+  destruct (requested fl IFit && negb (fhas (tkey t IFit) fs));
+    destruct (requested fl ITrain && negb (fhas (tkey t ITrain) fs));
+    destruct (requested fl ITest && negb (fhas (tkey t ITest) fs)); reflexivity.
+Qed.
+
+Section Est4.
+  Variable fitf : Z -> list row -> Z.
+  Variable predf : Z -> Z -> Z -> Z.
+  Notation expect := (expect fitf predf).
+  Notation puts := (puts fitf predf).
+  Notation complete_task := (complete_task fitf predf).
+  Notation complete_all := (complete_all fitf predf).
+  Notation all_missing := (all_missing fitf predf).
+  Notation need_fit := (need_fit fitf predf).
+
+  Lemma fhas_puts_items t : forall its fs it,
+    fhas (tkey t it) (puts (map (pair t) its) fs) = existsb (item_eqb it) its || fhas (tkey t it) fs.
+  Proof.
+    induction its as [|a r IH]; intros fs it; [reflexivity|]. cbn [map]. rewrite puts_cons, IH.
+    cbn [existsb]. unfold ikey. cbn [fst snd]. destruct (item_eqb it a) eqn:E.
+    - apply item_eqb_spec in E. subst a. rewrite fhas_fput_same. cbn. apply orb_true_r.
+    - rewrite fhas_fput_other; [reflexivity|]. unfold tkey. intro H. inversion H. subst.
+      destruct a; discriminate.
+  Qed.
+
+  (* after a prefix of the missing entries of t has been written, exactly the rest is missing *)
+  Lemma missing_after_prefix fl t fs m1 m2 :
+    missing fl t fs = m1 ++ m2 -> missing fl t (puts m1 fs) = m2.
+  Proof.
+    rewrite missing_filter. intro H. apply map_eq_app in H.
+    destruct H as [a [b [Hab [<- <-]]]]. rewrite missing_filter. f_equal.
+    rewrite (filter_ext _ (fun it => cmiss fl t fs it && negb (existsb (item_eqb it) a))).
+    - rewrite filter_andb, Hab. apply filter_notin_app. rewrite <- Hab. apply nodup_filter_items.
+    - intro it. unfold cmiss. rewrite fhas_puts_items.
+      destruct (requested fl it), (existsb (item_eqb it) a), (fhas (tkey t it) fs); reflexivity.
+  Qed.
+
+  Lemma complete_task_mono fl t fs k : fhas k fs = true -> fhas k (complete_task fl t fs) = true.
+  Proof. apply puts_mono. Qed.
+  Lemma complete_all_mono fl : forall l fs k, fhas k fs = true -> fhas k (complete_all fl l fs) = true.
+  Proof.
+    induction l as [|t r IH]; intros fs k H; cbn; [exact H|]. apply IH, complete_task_mono, H.
+  Qed.
+  Lemma missing_nil_mono fl t fs fs' :
+    missing fl t fs = [] -> (forall k, fhas k fs = true -> fhas k fs' = true) -> missing fl t fs' = [].
+  Proof. rewrite !missing_nil_iff. intros H Hm it Hr. apply Hm, H, Hr. Qed.
+  Lemma complete_task_complete fl t fs : missing fl t (complete_task fl t fs) = [].
+  Proof.
+    unfold Proofs.complete_task. apply (missing_after_prefix fl t fs (missing fl t fs) []).
+    symmetry. apply app_nil_r.
+  Qed.
+  Lemma complete_task_id fl t fs : missing fl t fs = [] -> complete_task fl t fs = fs.
+  Proof. unfold Proofs.complete_task. intros ->. reflexivity. Qed.
+  Lemma complete_all_app fl a b fs : complete_all fl (a ++ b) fs = complete_all fl b (complete_all fl a fs).
+  Proof. revert fs. induction a as [|t r IH]; intro fs; cbn; [reflexivity|]. apply IH. Qed.
+  Lemma complete_all_complete fl : forall l fs t, In t l -> missing fl t (complete_all fl l fs) = [].
+  Proof.
+    induction l as [|t0 r IH]; intros fs t Hin; [destruct Hin|]. cbn. destruct Hin as [->|Hin].
+    - apply (missing_nil_mono fl t (complete_task fl t fs)); [apply complete_task_complete|].
+      intros k Hk. apply complete_all_mono, Hk.
+    - apply IH, Hin.
+  Qed.
+  (* a complete store is a fixed point: nothing to write, nothing to fit *)
+  Lemma complete_all_id fl : forall l fs, (forall t, In t l -> missing fl t fs = []) ->
+    complete_all fl l fs = fs /\ all_missing fl l fs = [] /\ need_fit fl l fs = [].
+  Proof.
+    induction l as [|t r IH]; intros fs H;
+      cbn [Proofs.complete_all Proofs.all_missing Proofs.need_fit]; [auto|].
+    pose proof (H t (or_introl eq_refl)) as Ht. rewrite (complete_task_id fl t fs Ht), Ht. cbn [app].
+    apply IH. intros t' Hin. apply H. right. exact Hin.
+  Qed.
+
+  (* resuming after a crash reaches the store of the uninterrupted run *)
+  Lemma resume_algebra fl pre t post m1 m2 fs :
+    missing fl t (complete_all fl pre fs) = m1 ++ m2 ->
+    complete_all fl (pre ++ t :: post) (puts m1 (complete_all fl pre fs))
+    = complete_all fl (pre ++ t :: post) fs.
+  Proof.
+    intro Hm. set (X := complete_all fl pre fs) in *.
+    rewrite !complete_all_app. fold X.
+    assert (complete_all fl pre (puts m1 X) = puts m1 X) as ->.
+    { apply complete_all_id. intros t' Hin.
+      apply (missing_nil_mono fl t' X); [apply complete_all_complete, Hin|].
+      intros k Hk. apply puts_mono, Hk. }
+    cbn [Proofs.complete_all]. f_equal. unfold Proofs.complete_task.
+    rewrite (missing_after_prefix fl t X m1 m2 Hm), Hm, puts_app. reflexivity.
+  Qed.
+
+  (* the entries a complete pass writes: exactly the requested ones that are not there, once each *)
+  Lemma all_missing_sound fl : forall l fs x, In x (all_missing fl l fs) ->
+    fhas (ikey x) fs = false /\ In (fst x) l /\ requested fl (snd x) = true.
+  Proof.
+    induction l as [|t r IH]; intros fs x Hin; [destruct Hin|]. cbn in Hin. apply in_app_or in Hin.
+    destruct Hin as [Hin|Hin].
+    - apply missing_in in Hin. destruct Hin as [A [B C]]. split; [exact C|]. split; [left; auto|exact B].
+    - destruct (IH _ _ Hin) as [A [B C]]. split; [|split; [right; exact B|exact C]].
+      destruct (fhas (ikey x) fs) eqn:E; [|reflexivity].
+      rewrite (complete_task_mono fl t fs _ E) in A. discriminate.
+  Qed.
+  Lemma all_missing_complete fl : forall l fs t it, In t l -> requested fl it = true ->
+    fhas (tkey t it) fs = false -> In (tkey t it) (map ikey (all_missing fl l fs)).
+  Proof.
+    induction l as [|t0 r IH]; intros fs t it Hin Hr Hf; [destruct Hin|]. cbn. rewrite map_app.
+    apply in_or_app. destruct (fhas (tkey t it) (complete_task fl t0 fs)) eqn:E.
+    - left. unfold Proofs.complete_task in E.
+      destruct (puts_fget fitf predf (missing fl t0 fs) fs (tkey t it)) as [E'|[x [Hx [Hk _]]]].
+      + unfold fhas in E, Hf. rewrite E' in E. rewrite E in Hf. discriminate.
+      + rewrite Hk. apply in_map. exact Hx.
+    - destruct Hin as [->|Hin].
+      + left. apply (in_map ikey _ (t, it)). apply missing_in. cbn. auto.
+      + right. apply IH; assumption.
+  Qed.
+  Lemma all_missing_nodup fl : forall l fs, NoDup (map ikey (all_missing fl l fs)).
+  Proof.
+    induction l as [|t r IH]; intro fs; cbn; [constructor|]. rewrite map_app.
+    apply NoDup_app_iff'. split; [apply missing_nodup|]. split; [apply IH|].
+    intros k [H1 H2]. apply in_map_iff in H1. destruct H1 as [x [<- Hx]].
+    apply in_map_iff in H2. destruct H2 as [y [Hy Hy2]].
+    destruct (all_missing_sound fl _ _ _ Hy2) as [A _]. rewrite Hy in A.
+    unfold Proofs.complete_task in A. rewrite (puts_has fitf predf _ fs x Hx) in A. discriminate.
+  Qed.
+  Lemma need_fit_sound fl : forall l fs t, In t (need_fit fl l fs) -> In t l /\ missing fl t fs <> [].
+  Proof.
+    induction l as [|t0 r IH]; intros fs t Hin; [destruct Hin|]. cbn in Hin. apply in_app_or in Hin.
+    destruct Hin as [Hin|Hin].
+    - destruct (missing fl t0 fs) eqn:E; [destruct Hin|]. destruct Hin as [<-|[]].
+      split; [left; reflexivity|congruence].
+    - destruct (IH _ _ Hin) as [A B]. split; [right; exact A|]. intro Hn. apply B.
+      apply (missing_nil_mono fl t fs); [exact Hn|]. intros k Hk. apply complete_task_mono, Hk.
+  Qed.
+End Est4.
